@@ -501,6 +501,34 @@ void runInner(const Case &c, verif_result *out) {
             s = parseGSpec(c, T::directed);
         }
         buildGraph(s, "int", g, m);
+        // two features one after the other: the searched object is a copy assigned over another graph (1), a rebuild
+        // through the container constructor from the edges and labels the graph holds (2), or the target of a move (3)
+        if (long long via = c.geti("via", 0)) {
+            typedef typename T::Label L;
+            if (via == 1) {
+                G h(g);
+                g = G(0);
+                g = h;
+            } else if (via == 2) {
+                if constexpr (T::nolabel) {
+                    std::vector<Edge> v;
+                    for (auto &p : m.e)
+                        v.emplace_back(p.first.first, p.first.second);
+                    g = G(v);
+                } else {
+                    std::vector<LabeledEdge<L>> v;
+                    for (auto &p : m.e)
+                        v.emplace_back(p.first.first, p.first.second, LabelCodec<L>::mk((int)p.second.k));
+                    g = G(v);
+                }
+                g.resize(m.n);
+            } else {
+                G h(std::move(g));
+                g = G(1);
+                g = std::move(h);
+            }
+            facts.tag("searched_object_via_" + std::string(via == 1 ? "copy" : via == 2 ? "container_constructor" : "move"));
+        }
         if (m.n <= 12)
             r = verifyBuilt(g, m, observer);
         Ref ref = makeRef(m);
